@@ -83,7 +83,8 @@ def itemTy : P ItemTy := do
   let k ← kind
   let iface ← opt
   let deps ← counted str
-  pure { kind := k, iface := iface, deps := deps }
+  let exports ← counted str
+  pure { kind := k, iface := iface, deps := deps, exports := exports }
 
 def importReq : P ImportReq := do
   let n ← str
